@@ -467,6 +467,9 @@ struct CanonicalizeContextPatterns {
 
 impl CanonicalizeContextPatterns {
 	fn new(block_separator_pref: &str, decimal_separator_pref: &str) -> CanonicalizeContextPatterns {
+		// an empty preference value would give the invalid character class "[]" below: a noncharacter (can't occur in XML) stands for "no separator"
+		let block_separator_pref = if block_separator_pref.is_empty() { "\u{FFFE}" } else { block_separator_pref };
+		let decimal_separator_pref = if decimal_separator_pref.is_empty() { "\u{FFFE}" } else { decimal_separator_pref };
 		let block_separator = Regex::new(&format!("[{}]", regex::escape(block_separator_pref))).unwrap();
 		let decimal_separator = Regex::new(&format!("[{}]", regex::escape(decimal_separator_pref))).unwrap();
 		// allows just "." and also matches an empty string, but those are ruled out elsewhere
